@@ -137,6 +137,8 @@ pub struct FarmWorld {
     pub led: super::oracle::Ledger,
     pub pending: Vec<String>,
     pub hub_pairs: Vec<(u64, u64)>,
+    /// branch counters noted while evaluating oracles (flushed into the trace by `exec`)
+    pub hits: Vec<String>,
 }
 
 /// run `$body` as a transaction on whichever farm contract this world deployed
@@ -292,7 +294,7 @@ impl FarmWorld {
         FarmWorld {
             b, kind, same, header: header.to_string(), owner, users, farm, fwlr, mock, ef, hub,
             block: 0, epoch: epoch0, epoch0, max_nonce: 0, log: vec![],
-            led: super::oracle::Ledger::default(), pending: vec![], hub_pairs: vec![],
+            led: super::oracle::Ledger::default(), pending: vec![], hub_pairs: vec![], hits: vec![],
         }
     }
 
